@@ -47,7 +47,7 @@ def directed(rng: random.Random) -> dict:
         body += [{"k": "if", "c": rng.choice([E("nowhere1"), E("nowhere1", "+", 1), E("late1")]), "t": [db(1)], "e": [db(2)] if rng.random() < 0.5 else None},
                  {"k": "label", "n": "late1"}, db(3)]
     elif kind == "for_bounds":
-        a = rng.choice([0, 1, 3])
+        a = rng.choice([0, 1, 3, 5, 6, 0xFE, -3])
         trip = rng.choice([0, 0, 1, 2, 7])
         b = rng.choice([E(a + trip), E(a, "+", trip), E("cnB")])
         body.append({"k": "assign", "n": "cnB", "e": E(a + trip)})
